@@ -144,25 +144,25 @@ def _get(arr, idx):
         return None
 
 
-def yaml_events(col, text, ph, ph2, obs, origin="", cap=None, rng=None):
+def yaml_events(col, text, ph, ph2, obs, origin="", cap=None, rng=None, cells_from_file=True):
     """one event per numeric line of the saved file; values from the saved object by YAML path,
     `back` from the reloaded object where that field was loaded from the file."""
     root = pyyaml.compose(text, Loader=getattr(pyyaml, "CSafeLoader", pyyaml.SafeLoader))
     lines = text.split("\n")
-    ok2 = ph2 is not None
+    ok2 = ph2 is not None and cells_from_file  # (cells given by argument are not read from the file)
 
     def cellof(p, key):
         return getattr(p, CELLKEYS[key]) if p is not None else None
 
     from harness.c16_world import disp_forces
     d1 = ph.dataset
-    d2 = ph2.dataset if ok2 and obs["ds"]["src"] == "yaml" else None
+    d2 = ph2.dataset if ph2 is not None and obs["ds"]["src"] == "yaml" else None
     fc1 = ph.force_constants
-    fc2 = ph2.force_constants if ok2 and obs["fc"]["src"] == "yaml" else None
+    fc2 = ph2.force_constants if ph2 is not None and obs["fc"]["src"] == "yaml" else None
     if fc2 is not None and fc1 is not None and fc2.shape != fc1.shape:
         fc2 = None  # layout converted on load: compared in the float layer through the conversion
     nac1 = ph.nac_params
-    nac2 = ph2.nac_params if ok2 and obs["nac"]["src"] == "yaml" else None
+    nac2 = ph2.nac_params if ph2 is not None and obs["nac"]["src"] == "yaml" else None
 
     def resolve(path):
         """-> (kind, value in saved object, value in reloaded object or None)"""
